@@ -348,6 +348,44 @@ theorem scalingNeededInt_false (aS oS : Bool) (aw ow : Nat) (vals : List Int)
         cases aS <;> cases oS <;> simp only [intKind, if_true, if_false, Bool.false_eq_true] at hc <;>
           simp [hc, hsz, hz, DType.signed, e1] at h <;> exact h
 
+/-- the driver's `Array`-backed lookup is the model's `loadedAt` -/
+theorem loadedAtA_eq (shape : List Nat) (els : List Elem) (i : List Nat) :
+    loadedAtA shape els.toArray i = loadedAt shape els i := by
+  simp [loadedAtA, loadedAt]
+
+/-! ### re-saving loaded data -/
+
+theorem mem_enumF_inBounds : ∀ (shape i : List Nat), i ∈ enumF shape → InBounds shape i
+  | [], i, h => by
+      simp [enumF] at h; subst h; trivial
+  | n :: rest, i, h => by
+      simp only [enumF, List.mem_flatMap, List.mem_map, List.mem_range] at h
+      obtain ⟨tl, htl, j, hj, rfl⟩ := h
+      exact ⟨hj, mem_enumF_inBounds rest tl htl⟩
+
+theorem loadedAt_map (shape : List Nat) (A : List Nat → Elem) (i : List Nat) (hi : InBounds shape i) :
+    loadedAt shape ((enumF shape).map A) i = A i := by
+  unfold loadedAt
+  rw [List.getD_eq_getElem?_getD, List.getElem?_map, enumF_getElem?_ravelF shape i hi]
+  rfl
+
+theorem flatMap_congr' {α β} (l : List α) (f g : α → List β) (h : ∀ a ∈ l, f a = g a) :
+    l.flatMap f = l.flatMap g := by
+  induction l with
+  | nil => rfl
+  | cons a l ih =>
+      simp only [List.flatMap_cons]
+      rw [h a (by simp), ih (fun b hb => h b (by simp [hb]))]
+
+theorem writeData_congr (e : Endian) (cw : Nat) (shape : List Nat) (A B : List Nat → Elem)
+    (h : ∀ i ∈ enumF shape, A i = B i) : writeData e cw shape A = writeData e cw shape B := by
+  rw [writeData_eq, writeData_eq]
+  exact flatMap_congr' _ _ _ (fun i hi => by rw [h i hi])
+
+theorem writeData_loaded (e : Endian) (cw : Nat) (shape : List Nat) (A : List Nat → Elem) :
+    writeData e cw shape (loadedAt shape ((enumF shape).map A)) = writeData e cw shape A :=
+  writeData_congr e cw shape _ _ (fun i hi => loadedAt_map shape A i (mem_enumF_inBounds shape i hi))
+
 /-! ### file names -/
 
 theorem rfind_lt (c : Char) : ∀ (s : List Char) (i : Nat), rfind c s = some i → i < s.length
